@@ -398,6 +398,35 @@ func streamCore(o *Out, rng *rand.Rand, thorough bool, _ []string) {
 			}
 		}
 	}
+	// long chunks of mostly constant metrics: the zero runs make the delta count exceed the payload's byte length
+	// (a run of any length costs two or three bytes), and runs cross metric boundaries
+	for k, mc := range [][2]int{{2, 16}, {7, 60}, {3, 130}, {1, 300}, {8, 40}, {5, 257}} {
+		m, cnt := mc[0], mc[1]
+		for variant := 0; variant < 3; variant++ {
+			var hs []string
+			bump := 1 + rng.Intn(cnt-1)
+			for j := 0; j < cnt; j++ {
+				kids := []*Node{}
+				for i := 0; i < m; i++ {
+					v := int64(1000 * (i + 1))
+					switch {
+					case variant == 1 && i == 0:
+						v += int64(j) // one counter, the rest constant
+					case variant == 2 && i == m-1 && j >= bump:
+						v += 5 // a single step in the last metric
+					}
+					kids = append(kids, &Node{Key: fmt.Sprintf("m%d", i), Tag: 0x12, Raw: u64(uint64(v))})
+				}
+				hs = append(hs, hx(docBytes(kids)))
+			}
+			n := cnt
+			if variant == 2 {
+				n = cnt/2 + 1
+			}
+			run(o, fmt.Sprintf("core %s %d | %s", ctors[(k+variant)%len(ctors)], n, strings.Join(hs, " ")))
+			o.count("long-constant")
+		}
+	}
 	// random schemas
 	ncases := 600
 	if thorough {
